@@ -103,6 +103,35 @@ def pairs_stage(res, prop, tier):
             "pair_sample": vlib.sample_edges(m["edges_file"], 1)}
 
 
+def lemma():
+    """Unbounded arithmetic core of C14 by TLAPS (spec-only, cached; not load-bearing)."""
+    import hashlib
+    import shutil
+    src = os.path.join(vlib.SPEC, "AgreementLemma.tla")
+    with open(src, "rb") as fh:
+        key = hashlib.sha256(fh.read()).hexdigest()[:16]
+    cpath = os.path.join(vlib.WORK, "cache", f"tlaps_{key}.json")
+    if os.path.exists(cpath):
+        with open(cpath) as fh:
+            return json.load(fh)
+    d = tmp("tlaps_" + key)
+    os.makedirs(d, exist_ok=True)
+    shutil.copy(src, d)
+    try:
+        p = subprocess.run(["timeout", "240", "tlapm", "--threads", "4", "AgreementLemma.tla"], cwd=d,
+                           stdout=subprocess.PIPE, stderr=subprocess.STDOUT, text=True)
+        m = re.search(r"All (\d+) obligations? proved", p.stdout)
+        out = {"tool": "tlapm", "proved_all": bool(m), "obligations": int(m.group(1)) if m else 0,
+               "theorems": ["Agree", "Progress"]}
+    except Exception as e:  # tool trouble is not a verdict
+        out = {"tool": "tlapm", "proved_all": False, "error": str(e)[:200]}
+    shutil.rmtree(d, ignore_errors=True)
+    if out.get("proved_all"):
+        with open(cpath, "w") as fh:
+            json.dump(out, fh)
+    return out
+
+
 def run(prop, tier, seed, replay=None):
     res = vlib.Result(prop, tier, seed, "model_checking")
     vlib.build_harness()
@@ -130,6 +159,8 @@ def run(prop, tier, seed, replay=None):
                        "mismatching cases -> tlc ObserveAgreement.tla",
     }
     res.coverage.update(cov)
+    if prop == "C14":
+        res.coverage["unbounded_lemma_tlaps"] = lemma()
     res.assumptions = ["copies are installed on real nodes with at most two crafted ACKs through the "
                        "independent codec; installation is verified through the public API",
                        "the byte budget for truncation point b is derived from the real full delta's op sizes",
